@@ -27,9 +27,52 @@ func main() {
 		intents(os.Args[2:])
 	case "txn":
 		txn(os.Args[2:])
+	case "deviation":
+		deviation(os.Args[2:])
 	default:
 		die(fmt.Errorf("unknown engine %q", os.Args[1]))
 	}
+}
+
+func deviation(args []string) {
+	fs := flag.NewFlagSet("deviation", flag.ExitOnError)
+	in := fs.String("in", "", "states file (ndjson)")
+	out := fs.String("out", "", "trace file (ndjson)")
+	fs.Parse(args)
+	w, err := env.NewWorld("g0", "")
+	if err != nil {
+		die(err)
+	}
+	defer w.Close()
+	f, err := os.Open(*in)
+	if err != nil {
+		die(err)
+	}
+	defer f.Close()
+	of, err := os.Create(*out)
+	if err != nil {
+		die(err)
+	}
+	bw := bufio.NewWriterSize(of, 1<<20)
+	r := &drive.DevRunner{W: w, Out: bw}
+	sc := bufio.NewScanner(f)
+	sc.Buffer(make([]byte, 1<<20), 1<<26)
+	for sc.Scan() {
+		if len(sc.Bytes()) == 0 {
+			continue
+		}
+		var st drive.DevState
+		if err := json.Unmarshal(sc.Bytes(), &st); err != nil {
+			die(err)
+		}
+		if err := r.Run(&st); err != nil {
+			bw.Flush()
+			die(err)
+		}
+	}
+	bw.Flush()
+	of.Close()
+	fmt.Printf("states=%d\n", r.N)
 }
 
 func txn(args []string) {
